@@ -146,6 +146,31 @@ static void printInverses( SDAI_Application_instance * x ) {
         }
         std::string key = std::string( ia->Name() ) + "@" + ia->Owner().Name();
         lines[key] = os.str();
+        // the same inverse attribute looked up BY NAME (SDAI_Application_instance::getInvAttr( const char * )): which descriptor comes
+        // back, and what its slot holds
+        {
+            SDAI_Application_instance::iAMap_t::value_type byName = x->getInvAttr( ia->Name() );
+            std::ostringstream on;
+            on << "INVN " << x->StepFileId() << " " << ia->Name() << "@" << ia->Owner().Name() << " ->";
+            if( !byName.first ) {
+                on << " NULL";
+            } else {
+                on << " " << byName.first->Name() << "@" << byName.first->Owner().Name() << " :";
+                if( byName.first->IsAggrType() ) {
+                    EntityAggregate * a = byName.second.a;
+                    if( a ) {
+                        EntityNode * en = ( EntityNode * ) a->GetHead();
+                        while( en ) {
+                            on << " " << ( en->node ? en->node->StepFileId() : -1 );
+                            en = ( EntityNode * ) en->NextNode();
+                        }
+                    }
+                } else if( byName.second.i ) {
+                    on << " " << byName.second.i->StepFileId();
+                }
+            }
+            lines[key + "#byname"] = on.str();
+        }
     }
     for( std::map<std::string, std::string>::iterator l = lines.begin(); l != lines.end(); ++l ) {
         std::cout << l->second << std::endl;
